@@ -64,7 +64,7 @@ func (c *Ctx) cbSpec(expandSetState bool) *Spec {
 			case c.cbReporter(StaticFn(ci)) && (fr == nil || !c.cbReporter(fr.Fn)):
 				// the outermost call that reports a request's outcome to the breaker (afterRequest,
 				// recordResult, … — any unexported method taking just the success flag)
-				return "afterRequest(" + p.Desc(ci.Common().Args[1], fr) + ")"
+				return "afterRequest(" + p.Desc(ci.Common().Args[1+cbSuccessIndex(StaticFn(ci))], fr) + ")"
 			case strings.HasPrefix(n, "dyn:func() error"):
 				return "call-fn"
 			case n == "builtin:recover":
@@ -88,7 +88,7 @@ func (c *Ctx) cbSpec(expandSetState bool) *Spec {
 		},
 		RetLabel: func(callee *ssa.Function) string {
 			// any inlined breaker helper that answers with just an error: its verdict is part of the path
-			if rs := callee.Signature.Results(); rs.Len() == 1 && rs.At(0).Type().String() == "error" {
+			if rs := callee.Signature.Results(); rs.Len() >= 1 && rs.At(rs.Len()-1).Type().String() == "error" {
 				return "ret:err"
 			}
 			return ""
@@ -97,17 +97,35 @@ func (c *Ctx) cbSpec(expandSetState bool) *Spec {
 	}
 }
 
-// cbReporter: an unexported method of CircuitBreaker whose only parameter is the success flag.
+// cbReporter: an unexported method of CircuitBreaker that takes the success flag — its only
+// boolean parameter; it may carry further context (an admission token, a timestamp).
 func (c *Ctx) cbReporter(f *ssa.Function) bool {
 	if f == nil || f.Signature.Recv() == nil || QualType(namedOf(f.Signature.Recv().Type())) != "circuitbreaker.CircuitBreaker" {
 		return false
 	}
-	ps := f.Signature.Params()
-	if ps.Len() != 1 || f.Object() == nil || f.Object().Exported() {
+	if f.Object() == nil || f.Object().Exported() {
 		return false
 	}
-	b, ok := ps.At(0).Type().Underlying().(*types.Basic)
-	return ok && b.Kind() == types.Bool
+	return cbSuccessIndex(f) >= 0
+}
+
+// cbSuccessIndex: the index (among the declared parameters, receiver excluded) of the only boolean
+// parameter of f, -1 when there is none or more than one.
+func cbSuccessIndex(f *ssa.Function) int {
+	if f == nil {
+		return -1
+	}
+	ps := f.Signature.Params()
+	idx := -1
+	for i := 0; i < ps.Len(); i++ {
+		if b, ok := ps.At(i).Type().Underlying().(*types.Basic); ok && b.Kind() == types.Bool {
+			if idx >= 0 {
+				return -1
+			}
+			idx = i
+		}
+	}
+	return idx
 }
 
 // cbReportFn: the function in which a reported outcome is turned into counters and transitions —
@@ -157,6 +175,7 @@ func checkC07(c *Ctx) {
 	c.Clause("threshold comparisons are exactly ≥ failureThreshold, ≥ successThreshold, ≥ maxRequests, lastFailure+interval < now, nextAttempt < now")
 	c.Clause("Execute calls fn only after beforeRequest returned nil; LoadBalancer.ServeHTTP reaches handleRequest under a configured breaker only through Execute")
 	c.Clause("a half-open trial is spent (requestCount++) in the critical section of the comparison that admitted it")
+	c.Clause("the status the outcome is derived from is the last one the backend wrote (an interim 1xx does not mask a final 5xx); admission context reported with the outcome is read in the admitting critical section")
 	c.Clause("the function handed to Execute can report failure (a non-nil error) for failed proxied requests; panics reach afterRequest(false) and are re-raised")
 	c.NotDecided("bounded event histories against a reference model; wall-clock behaviour; fairness between concurrent callers")
 
@@ -173,8 +192,8 @@ func checkC07(c *Ctx) {
 	after := c.cbReportFn()
 	exec := p.Fn("internal/circuitbreaker", "CircuitBreaker", "Execute")
 	successParam := "param:success"
-	if after != nil && len(after.Params) == 2 {
-		successParam = "param:" + after.Params[1].Name()
+	if si := cbSuccessIndex(after); after != nil && si >= 0 && 1+si < len(after.Params) {
+		successParam = "param:" + after.Params[1+si].Name()
 	}
 
 	// ---- afterRequest transitions ---------------------------------------------------------
@@ -416,7 +435,60 @@ func checkC07(c *Ctx) {
 			return ""
 		})
 
+	c.reportSnapshotRule(exec)
 	c07Wiring(c)
+}
+
+// reportSnapshotRule: whatever admission context travels with a half-open trial to the outcome
+// report (a generation, an epoch, a token) must have been read in the critical section that spent
+// the trial.  A value read in an earlier section is stale as soon as another caller performs the
+// open→half-open transition in between: the reporter then cannot match the trial to the state it
+// was admitted in, the spent trial is never counted, and with the budget leaked below the success
+// threshold the breaker refuses traffic for ever.
+func (c *Ctx) reportSnapshotRule(exec *ssa.Function) {
+	p := c.P
+	li := p.Locks()
+	nArgs := 0
+	c.traceRule("report-snapshot-current", "circuitbreaker.(*CircuitBreaker).Execute/report-arguments", exec, c.cbSpec(true),
+		"every breaker field that reaches the outcome report of a half-open trial as an argument is read under the write lock that spent the trial",
+		func(t *Trace) string {
+			spent := -1
+			for i, it := range t.Items {
+				if it.Label == "store requestCount := (fld:"+cbT+"requestCount + k:1)" {
+					spent = i
+				}
+			}
+			if spent < 0 {
+				return ""
+			}
+			for _, it := range t.Items[spent:] {
+				if !strings.HasPrefix(it.Label, "afterRequest(") {
+					continue
+				}
+				ci, _ := it.Instr.(ssa.CallInstruction)
+				si := cbSuccessIndex(StaticFn(ci))
+				for ai, a := range it.Args {
+					if ai == 0 || ai == 1+si {
+						continue // receiver, success flag
+					}
+					nArgs++
+					var loads []*ssa.UnOp
+					fieldLoads(a.V, 0, map[ssa.Value]bool{}, &loads)
+					for _, ld := range loads {
+						fr, ok := fieldRefOf(ld.X)
+						if !ok || !strings.HasPrefix(fr.Key(), cbT) {
+							continue
+						}
+						fl := li.Fns[ld.Parent()]
+						if fl == nil || fl.Must[ld].HoldsClass(cbT+"mutex") != 'W' {
+							return fmt.Sprintf("the half-open trial is reported with %s read at %s, outside the write-locked section that spent the trial: after a concurrent open→half-open transition the value is stale, the outcome of the spent trial is discarded and the budget never comes back", fr.Key(), p.InstrPos(ld))
+						}
+					}
+				}
+			}
+			return ""
+		})
+	c.Count("report_context_arguments", nArgs)
 }
 
 // lastLockBefore returns the most recent "lock:X" label not yet released before index i.
@@ -511,6 +583,9 @@ func c07Wiring(c *Ctx) {
 			return ""
 		})
 
+	// the status the breaker's closure judges is the final one the backend wrote (shared with C04/C13)
+	c.statusCaptured()
+
 	// failures are reported: the function handed to Execute can return a non-nil error
 	rule, construct := "failures-reported", "loadbalancer.(*LoadBalancer).ServeHTTP/Execute-argument"
 	if serve == nil {
@@ -601,6 +676,7 @@ func checkC08(c *Ctx) {
 			}
 			return ""
 		})
+	c.reportSnapshotRule(exec)
 	after := c.cbReportFn()
 	c.traceRule("open-sets-next-attempt", "circuitbreaker.(*CircuitBreaker).afterRequest", after, c.cbSpec(true),
 		"each transition to Open stores nextAttempt = now + timeout",
